@@ -706,14 +706,16 @@ class CatalogMachine(Machine):
                 raise Inapplicable('index out of range')
             pos = [range(n)[i] for i in arg]
             scalar = False
-            out = call(lambda: cat[np.array(arg)])
+            idx_obj = np.array(arg)
+            out = call(lambda: cat[idx_obj])
         elif form == 'boollist':
             # a boolean mask given as a plain Python list
             if len(arg) != n:
                 raise Inapplicable('mask length')
             pos = [i for i, b in enumerate(arg) if b]
             scalar = False
-            out = call(lambda: cat[[bool(b) for b in arg]])
+            idx_obj = [bool(b) for b in arg]
+            out = call(lambda: cat[idx_obj])
         elif form == 'slice':
             sl = slice(*arg)
             pos = list(range(n)[sl])
@@ -724,14 +726,15 @@ class CatalogMachine(Machine):
                 raise Inapplicable('index out of range')
             pos = [range(n)[i] for i in arg]
             scalar = False
-            out = call(lambda: cat[list(arg)])
+            idx_obj = list(arg)
+            out = call(lambda: cat[idx_obj])
         elif form == 'bool':
             if len(arg) != n:
                 raise Inapplicable('mask length')
             pos = [i for i, b in enumerate(arg) if b]
             scalar = False
-            m = np.array(arg, dtype=bool)
-            out = call(lambda: cat[m])
+            idx_obj = np.array(arg, dtype=bool)
+            out = call(lambda: cat[idx_obj])
         elif form in ('key', 'keys'):
             getter = ('get_label' if form == 'key' else 'get_labels') \
                 if self.variant == 'source' else \
@@ -760,6 +763,16 @@ class CatalogMachine(Machine):
             raise Inapplicable(form)
         if not pos:
             raise Inapplicable('empty selection')
+        if form in ('array', 'bool', 'list', 'boollist'):
+            # the index is the caller's own object: it refills it for its
+            # next selection as soon as the indexing has returned
+            if isinstance(idx_obj, list):
+                idx_obj.reverse()
+                idx_obj.append(idx_obj[0])
+            else:
+                idx_obj[...] = idx_obj[::-1].copy()
+                if idx_obj.dtype == bool:
+                    idx_obj[...] = ~idx_obj
         if isinstance(out, Raised):
             raise Violation('raises', 'index_' + form,
                             f'cat[{form} {arg}] raised {out!r}')
